@@ -202,7 +202,7 @@ def exact(prog, x):
     return F, J, H
 
 
-def driver_contract(prog_scalar, prog_vector, rng, rec_kinds=('ndarray', 'utpm2', 'utpm3'), tol=1e-9):
+def driver_contract(prog_scalar, prog_vector, rng, rec_kinds=('ndarray', 'utpm2', 'utpm3'), tol=1e-9, int_point=False):
     """all eight drivers at a point different from the recording point, for every recording kind.  returns (failures, n)"""
     a = A(); fails = []; n = 0
     for rk in rec_kinds:
@@ -212,13 +212,14 @@ def driver_contract(prog_scalar, prog_vector, rng, rec_kinds=('ndarray', 'utpm2'
             try: cg, fx, fy = record(prog, xr)
             except Exception as e: return [], 0, 'record-raises: %s' % type(e).__name__
             x = numpy.array([native.rnd(rng, 0.25, 1.0) for _ in range(N)]); v = numpy.array([native.rnd(rng, -1, 1, 8) for _ in range(N)])
-            F, J, H = exact(prog, x); M = len(F)
+            if int_point: x = numpy.array([rng.choice([1, 2, 3]) for _ in range(N)])          # an integer-TYPED evaluation point (non-integer directions)
+            F, J, H = exact(prog, x.astype(float)); M = len(F)
             w = numpy.array([native.rnd(rng, -1, 1, 8) for _ in range(M)])
             def cmp(name, got, want):
                 nonlocal n; n += 1
                 got = numpy.asarray(got, dtype=float); want = numpy.asarray(want, dtype=float)
                 if got.shape != want.shape or not numpy.allclose(got, want, rtol=tol, atol=tol * max(1.0, numpy.abs(want).max() if want.size else 1.0)):
-                    fails.append({'driver': name, 'record_kind': rk, 'program': prog.describe(), 'x_record': _ser(xr), 'x': x.tolist(), 'v': v.tolist(), 'w': w.tolist(),
+                    fails.append({'driver': name, 'record_kind': rk, 'program': prog.describe(), 'x_record': _ser(xr), 'x': x.tolist(), 'x_dtype': str(x.dtype), 'v': v.tolist(), 'w': w.tolist(),
                                   'got': got.tolist(), 'want': want.tolist()})
             try:
                 if scalar:
